@@ -1426,7 +1426,11 @@ func init() {
 		}
 		for _, op := range append(append([]string(nil), prattBin...), "&&", "||") {
 			for ti, x := range tight {
-				for _, y := range [][]ptok{{ptSym("b")}, {ptInt(2)}, tight[(ti+3)%len(tight)]} {
+				ys := [][]ptok{{ptSym("b")}, {ptInt(2)}, tight[(ti+3)%len(tight)]}
+				if !c.thorough() {
+					ys = ys[(ti+len(op))%3 : (ti+len(op))%3+1]
+				}
+				for _, y := range ys {
 					for _, toks := range [][]ptok{ptCat(x, []ptok{ptAlt(op)}, y), ptCat(y, []ptok{ptAlt(op)}, x),
 						ptCat([]ptok{ptSym("a"), ptOp("*")}, x, []ptok{ptAlt(op)}, y), ptCat(y, []ptok{ptAlt(op)}, x, []ptok{ptOp("**"), ptInt(2)})} {
 						n++
@@ -1453,8 +1457,11 @@ func init() {
 		tpl := ptStmtTemplates()
 		for _, s1 := range tpl {
 			for _, s2 := range tpl {
-				for _, sp := range prattSeps {
-					for _, m := range modes2 {
+				for si, sp := range prattSeps {
+					for mi, m := range modes2 {
+						if !c.thorough() && (si+mi+len(s1)+len(s2))%2 == 1 {
+							continue
+						}
 						emit("s", m, ptCat(s1, sp.toks, s2), uint64(idx), false)
 					}
 				}
@@ -1552,7 +1559,7 @@ func init() {
 		// (t) typed random programs, (r) untyped random operator sequences
 		nt := c.n
 		if nt == 0 {
-			nt = 3000
+			nt = 1200
 			if c.thorough() {
 				nt = 120000
 			}
